@@ -3,7 +3,7 @@
 #include <zlib.h>
 #include <ctype.h>
 
-const int gq_alts[GQ__N] = { 6, 8, 2, 3, 5, 5, 4, 8, 4, 5 };
+const int gq_alts[GQ__N] = { 6, 8, 2, 3, 5, 5, 4, 10, 4, 5 };
 int gx_nobody_cl = 0;      /* switched on by the C02 enumeration only (KF-304-LENGTH) */
 int gs_alts[GS__N] = { 2, 6, 3, 5, 5, 5 };      /* GS_STATUS has a 7th alternative (interim 103), switched on by the C02 enumeration only: see KF-INTERIM-1XX */
 
@@ -147,6 +147,13 @@ void gx_build(const int *q, const int *s, int ord, int last, gx_msg *t, hx_buf *
         case 7: { char v[160]; snprintf(v, sizeof v, "Digest realm=\"r\", nonce=\"n\", uri=\"/a?username=x\", response=\"x\", username=\"al \\\"ice%d\"", ord);
                   hb_printf(req, "Authorization: %s\r\n", v); addh(t->reqh, &t->nreqh, "Authorization", v, NULL);
                   t->auth_type = HTP_AUTH_DIGEST; snprintf(t->auth_user, sizeof t->auth_user, "al \"ice%d", ord); t->has_auth_user = 1; break; }
+        /* auth-param names are case-insensitive and may have blanks around '=' (RFC 7235 2.1: token BWS "=" BWS ( token / quoted-string )) */
+        case 8: { char v[160]; snprintf(v, sizeof v, "Digest Username=\"mu%d\", realm=\"r\", nonce=\"n\", uri=\"/\", response=\"x\"", ord);
+                  hb_printf(req, "Authorization: %s\r\n", v); addh(t->reqh, &t->nreqh, "Authorization", v, NULL);
+                  t->auth_type = HTP_AUTH_DIGEST; snprintf(t->auth_user, sizeof t->auth_user, "mu%d", ord); t->has_auth_user = 1; break; }
+        case 9: { char v[160]; snprintf(v, sizeof v, "Digest realm=\"r\", username = \"fa%d\", nonce=\"n\", uri=\"/\", response=\"x\"", ord);
+                  hb_printf(req, "Authorization: %s\r\n", v); addh(t->reqh, &t->nreqh, "Authorization", v, NULL);
+                  t->auth_type = HTP_AUTH_DIGEST; snprintf(t->auth_user, sizeof t->auth_user, "fa%d", ord); t->has_auth_user = 1; break; }
         case 3: { char v[64]; snprintf(v, sizeof v, "Bearer tok%d", ord); hb_printf(req, "Authorization: %s\r\n", v); addh(t->reqh, &t->nreqh, "Authorization", v, NULL);
                   t->auth_type = HTP_AUTH_BEARER; break; }
     }
